@@ -255,6 +255,19 @@ func uri(g *hx.Rng) string {
 
 func data(g *hx.Rng) string { return jsonGood[g.Intn(len(jsonGood))] }
 
+var soupToks = []string{"{", "}", "[", "]", ",", ":", "\"", "\"a\"", "\"k\":", "\\", "\\u00e9", "\\u12", "\\n", "0", "1", "12", "-", ".", ".5", "e", "E+", "e-3", "true", "false", "null", "tru", " ", "\t", "\n", "x", "é", "\x01"}
+
+// soup is a random concatenation of JSON fragments: mostly invalid, sometimes valid; it aims at
+// the boundary of gjson.Valid.
+func soup(g *hx.Rng) string {
+	var sb strings.Builder
+	n := 1 + g.Intn(7)
+	for i := 0; i < n; i++ {
+		sb.WriteString(soupToks[g.Intn(len(soupToks))])
+	}
+	return sb.String()
+}
+
 // change draws a field of an edit / transfer: sentinel, empty or a new value.
 func change(g *hx.Rng, fresh func() string) string {
 	switch g.Pick(5, 2, 4) {
@@ -303,10 +316,6 @@ func (r *R) Gen(ctx sdk.Context, g *hx.Rng) string {
 		return l
 	}
 	classes, toks, _, _ := r.view(ctx)
-	live := map[string]bool{}
-	for _, t := range toks {
-		live[t.class+"|"+t.id] = true
-	}
 	pickClass := func() classView {
 		if len(classes) == 0 || g.Chance(1, 25) {
 			return classView{id: "nosuch", creator: r.acc(g)}
@@ -324,12 +333,29 @@ func (r *R) Gen(ctx sdk.Context, g *hx.Rng) string {
 		// small pool: burnt ids come back, live ids are hit now and then
 		return tokPool[g.Intn(len(tokPool))]
 	}
+	if g.Chance(1, 16) { // pure conformance case for the data rule of ValidateBasic (gjson.Valid)
+		d := soup(g)
+		switch g.Intn(5) {
+		case 0:
+			d = jsonGood[g.Intn(len(jsonGood))]
+		case 1:
+			d = jsonBad[g.Intn(len(jsonBad))]
+		}
+		return "nft vjson data=" + hx16(d)
+	}
 	kind := g.Pick(3, 10, 7, 10, 5, 3, 4, 3)
 	if len(classes) == 0 && g.Chance(4, 5) {
 		kind = 0
 	}
 	if len(classes) < 3 && g.Chance(1, 3) {
 		kind = 0
+	}
+	if kind == 0 && len(classes) >= 4 && g.Chance(2, 3) {
+		kind = 1
+	}
+	urOf := map[string]bool{}
+	for _, c := range classes {
+		urOf[c.id] = c.ur
 	}
 	switch kind {
 	case 0: // issue: every combination of the two flags; sometimes an id that exists already
@@ -348,6 +374,9 @@ func (r *R) Gen(ctx sdk.Context, g *hx.Rng) string {
 		return mintLine(sender, rc, c.id, freshOrUsedTok(c.id), str(g), uri(g), str(g), data(g))
 	case 2: // edit: owner mostly; sentinel / empty / changed fields
 		t := pickTok()
+		for i := 0; i < 3 && urOf[t.class] && g.Chance(3, 4); i++ { // update-restricted classes refuse every edit: do not starve the others
+			t = pickTok()
+		}
 		sender := t.owner
 		if g.Chance(3, 10) {
 			sender = r.anyAcc(g)
@@ -463,10 +492,15 @@ func (r *R) malformed(ctx sdk.Context, g *hx.Rng, classes []classView, toks []to
 		d := jsonBad[g.Intn(len(jsonBad))]
 		if g.Chance(1, 4) {
 			d = sentinel
+		} else if g.Chance(2, 3) {
+			d = soup(g)
 		}
 		return mintLine(creator, r.acc(g), cid, tokPool[g.Intn(len(tokPool))], str(g), uri(g), str(g), d)
 	case 6: // data not JSON on edit / transfer
 		d := jsonBad[g.Intn(len(jsonBad))]
+		if g.Chance(1, 2) {
+			d = soup(g)
+		}
 		if g.Chance(1, 2) {
 			return editLine(tk.owner, tk.class, tk.id, sentinel, sentinel, sentinel, d)
 		}
@@ -544,6 +578,13 @@ func (r *R) Exec(ctx sdk.Context, line string) (sdk.Context, string) {
 	case "transfer":
 		msg = &nfttypes.MsgTransferNFT{Id: id("id"), DenomId: id("denom"), Name: unhex(a["name"]), URI: unhex(a["uri"]),
 			UriHash: unhex(a["urihash"]), Data: unhex(a["data"]), Sender: r.addr(a["sender"]), Recipient: r.addr(a["recipient"])}
+	case "vjson": // ValidateBasic only: an otherwise well-formed mint carrying this data
+		m := &nfttypes.MsgMintNFT{Id: "t0a", DenomId: "cla", Data: unhex(a["data"]), Sender: hx.Acc(0).String(), Recipient: hx.Acc(0).String()}
+		res := hx.OK
+		if err := m.ValidateBasic(); err != nil {
+			res = hx.Rej
+		}
+		return ctx, res + " " + r.state(ctx)
 	case "burn":
 		msg = &nfttypes.MsgBurnNFT{Id: id("id"), DenomId: id("denom"), Sender: r.addr(a["sender"])}
 	case "transfer_denom":
